@@ -39,10 +39,14 @@ Plans == <<
   [p |-> Join(Over(<<Sel(<<Metric("m"), Eq("a", "x")>>)>>, LAMBDA c : Fn("abs", <<c>>)), M, LAMBDA a, b : Bin("-", a, b)), dist |-> FALSE],
   [p |-> Over(<<RFn("last_over_time", <<Metric("m")>>, 2, 1, "none", 0)>>, LAMBDA c : Agg("count", FALSE, <<"b">>, <<c>>)), dist |-> TRUE],
   [p |-> Over(M, LAMBDA c : Fn("timestamp", <<c>>)), dist |-> FALSE],
-  [p |-> PS, dist |-> FALSE] >>
+  [p |-> PS, dist |-> FALSE],
+  \* selects that are loaded lazily, by a pull goroutine during Next() rather than by Series()
+  [p |-> Join(M, Over(Over(N2, LAMBDA c : Agg("sum", TRUE, <<>>, <<c>>)), LAMBDA c : Fn("scalar", <<c>>)), LAMBDA a, b : Bin("+", a, b)), dist |-> FALSE],
+  [p |-> Over(Over(N2, LAMBDA c : Agg("sum", TRUE, <<>>, <<c>>)), LAMBDA c : Fn("scalar", <<c>>)), dist |-> FALSE],
+  [p |-> Join(PS, M, LAMBDA a, b : Agg("topk", TRUE, <<>>, <<a, b>>)), dist |-> FALSE] >>
 
 VARIABLE g
-Init == g \in [p : 1..Len(Plans), win : {"instant", "range"}, procs : IF Q THEN {4} ELSE {2, 8}, dist : {0, 1}]
+Init == g \in [p : 1..Len(Plans), win : {"instant", "range"}, procs : IF Q THEN {2, 4} ELSE {2, 4, 8}, dist : {0, 1}]
 Next == UNCHANGED g
 Valid(x) == x.dist = 0 \/ Plans[x.p].dist
 ScnOf(x) == Scn("fault", "C15", TickMs, Data, Plans[x.p].p, 2, IF x.win = "instant" THEN 2 ELSE 13, IF x.win = "instant" THEN 0 ELSE 1, 2, 0)
